@@ -408,6 +408,15 @@ func (p c20) Run(t *testing.T, c *Case, s Sched, keepLog bool) *Obs {
 					if op.Name == "-" {
 						got, want = sortLetters(got), sortLetters(want)
 					}
+					if op.Name == "-" || op.Name == "!" || op.Name == "0" {
+						if !set {
+							got = ""
+						}
+						if !mset {
+							want = ""
+						}
+						set, mset = true, true
+					}
 					if set != mset || (set && got != want) {
 						add("store-differs-from-model", fmt.Sprintf("%s: Get = (%q, %v), model says (%q, %v)", desc, v.Value, set, mv, mset))
 					}
@@ -611,6 +620,19 @@ func (p c20) Run(t *testing.T, c *Case, s Sched, keepLog bool) *Obs {
 				got, want := v.Value, mv
 				if n == "-" {
 					got, want = sortLetters(got), sortLetters(want)
+				}
+				if n == "-" || n == "!" || n == "0" {
+					// whether an EMPTY special parameter counts as "set" is not pinned by C20: compare values only
+					if !set {
+						got = ""
+					}
+					if !mset {
+						want = ""
+					}
+					if got != want {
+						add("store-differs-from-model", fmt.Sprintf("after %s: Get(%q) = (%q, %v), model says (%q, %v)", desc, n, v.Value, set, mv, mset))
+					}
+					continue
 				}
 				if set != mset || (set && got != want) {
 					add("store-differs-from-model", fmt.Sprintf("after %s: Get(%q) = (%q, %v), model says (%q, %v)", desc, n, v.Value, set, mv, mset))
